@@ -984,6 +984,10 @@ func (s *Session) handleAuth(cmdSeq int, c Cmd, line string) bool {
 	}
 	if !advertised {
 		s.obs("auth-mechanism-not-advertised:"+mech, line)
+		if s.srv.Cfg.Auth.RefuseUnannounced && act.Code == 0 && act.Kind == "" {
+			// a server that only speaks the mechanisms it announced (RFC 4954 section 4: 504)
+			return s.reply(cmdSeq, "AUTH", nth, act, 504, "5.5.4", "unrecognized authentication type")
+		}
 	}
 	if act.Code != 0 || act.Kind != "" {
 		return s.reply(cmdSeq, "AUTH", nth, act, 535, "", "authentication failed")
